@@ -1,12 +1,18 @@
 ----------------------------------------- MODULE CartSymmetry_mc -----------------------------------------
 EXTENDS CartSymmetry
+\* cell sizes in whole length units: square, 2 x 1 and 1 x 3 (for non-square cells only the reflections are symmetries)
+RectP   == {<<1, 1>>, <<2, 1>>, <<1, 3>>}
+SquareP == {<<1, 1>>, <<3, 3>>}
 Bound == TLCGet("level") <= MaxLevel
 \* states on the last level are checked but not expanded (their successors would be thrown away by Bound anyway)
 ApplyB(g) == TLCGet("level") < MaxLevel /\ g \in Gens(bc) /\ Apply(g)
-NextB == \E g \in {"R90", "MX", "MY"} : ApplyB(g)
+ChangePitchB(p) == TLCGet("level") < MaxLevel /\ p \in Pitches(bc) /\ ChangePitch(p)
+NextB == \/ \E g \in {"R90", "MX", "MY"} : ApplyB(g)
+         \/ \E p \in RectP \cup SquareP : ChangePitchB(p)
 View  == vars
 Emit  == PrintT(ToJson([lvl |-> TLCGet("level"), from |-> Vars, act |-> [n |-> act'.n, g |-> act'.g],
-                        to |-> [th |-> th', bc |-> bc', c |-> c'],
-                        obs |-> [c |-> c', xy |-> ApplyGen(act'.g, CXY(th, c))]]))
+                        to |-> [th |-> th', bc |-> bc', c |-> c', pitch |-> pitch'],
+                        obs |-> [c |-> c', xy |-> IF act'.n = "Apply" THEN ApplyGen(act'.g, GeoCentre(th, pitch, c))
+                                                  ELSE GeoCentre(th, pitch', c)]]))
 EmitState == PrintT(ToJson([st |-> Vars, obs |-> Obs]))
 ==========================================================================================================
